@@ -141,6 +141,8 @@ type translator struct {
 	litSites map[string]map[string]int
 	// request-phase calls of mutator-named methods on shared objects of unresolved type
 	opaque map[string][]string
+	// functions outside the anchored files pulled in by the reference closure
+	reached []string
 }
 
 func (t *translator) note(format string, a ...any) {
@@ -1463,6 +1465,16 @@ func pathsOf(fs []frag) [][]Act {
 }
 
 func (t *translator) doPkg(p *pkgInfo) {
+	done := map[*ast.FuncDecl]bool{}
+	var work []*ast.FuncDecl
+	fileOf := map[*ast.FuncDecl]*ast.File{}
+	for _, f := range p.files {
+		for _, d := range f.Decls {
+			if fd, ok := d.(*ast.FuncDecl); ok {
+				fileOf[fd] = f
+			}
+		}
+	}
 	for _, f := range p.files {
 		if !p.emit[f] {
 			continue
@@ -1471,11 +1483,56 @@ func (t *translator) doPkg(p *pkgInfo) {
 			switch d := d.(type) {
 			case *ast.FuncDecl:
 				t.doDecl(p, f, d)
+				done[d] = true
+				work = append(work, d)
 			case *ast.GenDecl:
 				if d.Tok == token.VAR {
 					t.doVarLits(p, f, d)
 				}
 			}
+		}
+	}
+	// Reference closure: a function of the same package that an analysed body mentions (called
+	// OR taken as a value, e.g. `formatter = NewErrorResponse`), and every method of a local
+	// type an analysed body mentions (methods are reached through interfaces), is part of the
+	// request path even when it lives in a file that is not anchored.
+	methodsOf := map[string][]*ast.FuncDecl{}
+	for _, fd := range p.funcs {
+		if r := recvTypeName(fd); r != "" {
+			methodsOf[r] = append(methodsOf[r], fd)
+		}
+	}
+	for len(work) > 0 {
+		d := work[0]
+		work = work[1:]
+		var found []*ast.FuncDecl
+		ast.Inspect(d, func(n ast.Node) bool {
+			id, ok := n.(*ast.Ident)
+			if !ok {
+				return true
+			}
+			if id.Obj != nil && id.Obj.Kind != ast.Fun && id.Obj.Kind != ast.Typ {
+				return true
+			}
+			if fd, ok := p.funcs[id.Name]; ok && fd.Recv == nil {
+				found = append(found, fd)
+			}
+			_, isStruct := p.structs[id.Name]
+			_, isNamed := p.named[id.Name]
+			if isStruct || isNamed {
+				found = append(found, methodsOf[id.Name]...)
+			}
+			return true
+		})
+		sort.Slice(found, func(i, j int) bool { return found[i].Pos() < found[j].Pos() })
+		for _, fd := range found {
+			if done[fd] || fd.Body == nil || fileOf[fd] == nil {
+				continue
+			}
+			done[fd] = true
+			t.reached = append(t.reached, p.id+"."+funcKey(fd)+" ("+filepath.Base(p.fset.Position(fd.Pos()).Filename)+")")
+			t.doDecl(p, fileOf[fd], fd)
+			work = append(work, fd)
 		}
 	}
 }
@@ -2014,6 +2071,7 @@ func main() {
 		"shared_writes_classified":             classesUsed,
 		"shared_writes_stale_entries":          staleAllow,
 		"opaque_writes":                        t.opaque,
+		"reached_outside_anchored_files":       t.reached,
 		"setup_table_used":                     usedSetup,
 		"stats": map[string]int{"request_bodies": len(t.bodies), "setup_bodies": len(t.setupBs), "paths": nPaths,
 			"distinct_nonempty_paths": nDistinct, "setup_paths": nSetupPaths, "setup_distinct_nonempty_paths": nSetupDistinct,
